@@ -1,6 +1,7 @@
 #pragma once
 
 #include "ccl/rslang/SyntaxTree.h"
+#include "ccl/rslang/ParserState.hpp"
 
 #include <unordered_map>
 #include <unordered_set>
@@ -22,20 +23,29 @@ private:
   uint32_t localVarBase{ 0 };
   std::unordered_set<std::string> userLocals{};
   bool isInitialized{ false };
+  bool isTooDeep{ false };
 
 public:
   explicit Normalizer(SyntaxTreeContext termFuncs)
     : termFuncs{ std::move(termFuncs) } {}
 
 public:
+  //! Maximum nesting of the normalized tree: consumers of the tree are recursive.
+  //  Note: nesting of the parsed tree is limited by the parser, normalization of declarations adds some levels to it,
+  //  but substitution of term-functions multiplies it by nesting of their definitions
+  static constexpr int32_t MAX_TREE_DEPTH = 2 * detail::ParserState::MAX_TREE_DEPTH;
+
   void Normalize(SyntaxTree::Node& root);
+  [[nodiscard]] bool IsTooDeep() const noexcept { return isTooDeep; }
 
 private:
+  void Normalize(SyntaxTree::Node& root, int32_t depth);
+
   void Quantifier(SyntaxTree::Node& quant);
   void Imperative(SyntaxTree::Node& root);
   void Recursion(SyntaxTree::Node& root);
   void Declarative(SyntaxTree::Node& root);
-  void Function(SyntaxTree::Node& func);
+  void Function(SyntaxTree::Node& func, int32_t depth);
 
   void CollectLocalNames(const SyntaxTree::Node& root);
   void EnumDeclaration(SyntaxTree::Node& quant);
